@@ -326,6 +326,28 @@ def entry_points(ctx, P):
         # state only through c
         st = [i for i in f.all_insts() if i.op == "store" and P.term(f, i.a[1])[0] not in ("alloca",)]
         ctx.ob("C18.4 R-EFFECT", f, "no-hidden-state", not [s for s in st if P.term(f, s.a[1])[0] == "global"], "entry point keeps state in a global")
+    # completeness: no entry point may answer 'valid' for a text marked complete without the "between code points" test
+    for key in ("utf8_checker.c:cjet_is_text_valid", "utf8_checker.c:cjet_is_byte_sequence_valid", "utf8_checker.c:cjet_is_word_sequence_valid",
+                "utf8_checker.c:cjet_is_word64_sequence_valid", "utf8_checker.c:cjet_is_word_sequence_valid_auto_alligned"):
+        f = P.fn(key)
+        bad = None
+        n = 0
+        for v in Q.path_views(ctx, P, f):
+            rc = v.ret_const()
+            if rc == 0:
+                continue
+            complete = v.has_atom(lambda a, p: a[0] == "truth" and a[1][0] == "param" and a[1][1] == 3 and p)
+            not_complete = v.has_atom(lambda a, p: a[0] == "truth" and a[1][0] == "param" and a[1][1] == 3 and not p)
+            tested = v.has_atom(lambda a, p: a[0] == "cmp" and Q.is_field_load(a[2], "struct.cjet_utf8_checker", "start_byte") is not None
+                                and a[3] == ("const", finish) and Q._poleq(a, p))
+            if not_complete:
+                continue
+            n += 1
+            if not tested:
+                bad = v
+        ctx.ob("C18.4 R-GATE", f, "complete-implies-finished", bad is None and n > 0,
+               "%s can answer 'valid' for a text marked complete on a path that never tests start_byte == UC_FINISH: a text ending "
+               "inside a multi-byte character is accepted when presented this way" % f.srcname, witness=bad.witness() if bad else None)
     ctx.floor("C18.4 R-ORDER", 4)
 
 
